@@ -150,9 +150,23 @@ def boundary_productions():
     return st.tuples(before, ind, after, tail).map("".join)
 
 
+def flow_key_productions():
+    """Flow collections in key and value position on ONE line, with entries that have an empty key, an empty value or an explicit
+    '?': the scanner's simple-key bookkeeping per flow level (a candidate saved at a depth that is closed and opened again)."""
+    entry = st.sampled_from(["a", "a", "b c", ":b", ": z", "a:", "a: b", "? a", "?", "? a : b", "*x", "&x a", "!t a", "'q'", "\"d\": e", "", "[a]", "{a}", "[:b]", "{:b}", "[a]: c"])
+    def coll(es, kind, sp):
+        o, c = ("[", "]") if kind else ("{", "}")
+        return o + sp + (", " if sp else ",").join(es) + sp + c
+    flow = st.tuples(st.lists(entry, max_size=3), st.booleans(), st.sampled_from(["", "", " "])).map(lambda t: coll(*t))
+    sep = st.sampled_from([": ", ": ", ":", " : ", ":\n  ", ", "])
+    lead = st.sampled_from(["", "", "- ", "? ", "k: ", "[", "{", "- - ", "--- "])
+    tail = st.sampled_from(["\n", "\n", "", "]\n", "}\n", ": x\n", "\n- y\n", " # c\n"])
+    return st.tuples(lead, flow, sep, flow, tail).map("".join)
+
+
 def productions():
     return st.one_of(numberlike_productions(), escape_productions(), directive_productions(), header_productions(), tag_anchor_productions(), structure_productions(),
-                     boundary_productions())
+                     boundary_productions(), flow_key_productions())
 
 
 def all_truncations(text):
